@@ -13,11 +13,13 @@ import (
 )
 
 type specCtx struct {
-	fr   *Frame
-	cur  *State
-	old  *State
-	env  map[string]Val
-	pkg  *types.Package
+	local func(name string, st *State) (Val, bool) // resolves source-level local variables (loop invariants)
+	iter  *iterInfo                                // map iterator of the loop whose invariant is being evaluated (for seen(k))
+	fr    *Frame
+	cur   *State
+	old   *State
+	env   map[string]Val
+	pkg   *types.Package
 	depth int
 }
 
@@ -216,6 +218,11 @@ func (u *Unit) zeroOfVal(v Val) string {
 func (u *Unit) specIdent(e *SExpr, ctx *specCtx) (Val, error) {
 	if v, ok := ctx.env[e.Name]; ok {
 		return v, nil
+	}
+	if ctx.local != nil && !strings.HasPrefix(e.Name, "$") {
+		if v, ok := ctx.local(e.Name, ctx.cur); ok {
+			return v, nil
+		}
 	}
 	if strings.HasPrefix(e.Name, "$") {
 		switch e.Name {
@@ -451,8 +458,8 @@ func (u *Unit) specIndex(e *SExpr, ctx *specCtx) (Val, error) {
 	switch t := x.Ty.Underlying().(type) {
 	case *types.Slice:
 		es := u.sortOf(t.Elem())
-		h := u.hget(ctx.cur, "E_"+sortTag(es), "(Array Int (Array Int "+es+"))")
-		return Val{T: sel(sel(h, sx("s_arr", x.T)), sx("+", sx("s_off", x.T), i.T)), Ty: t.Elem()}, nil
+		h := u.hget(ctx.cur, u.elemHeapName(t.Elem()), "(Array Int (Array Int "+es+"))")
+		return Val{T: sel(sel(h, sx("s_arr", x.T)), u.sidx(x.T, i.T)), Ty: t.Elem()}, nil
 	case *types.Map:
 		return Val{T: u.mapGet(ctx.cur, t, x.T, i.T), Ty: t.Elem()}, nil
 	case *types.Basic:
@@ -544,6 +551,16 @@ func (u *Unit) specCall(e *SExpr, ctx *specCtx) (Val, error) {
 			r = sx("s_arr", x.T)
 		}
 		return Val{T: sx(">=", r, u.hget(ctx.old, "$alloc", sInt)), Ty: tBoolT}, nil
+	case "samearr":
+		a, err := arg(0)
+		if err != nil {
+			return Val{}, err
+		}
+		b, err := arg(1)
+		if err != nil {
+			return Val{}, err
+		}
+		return Val{T: and(eq(sx("s_arr", a.T), sx("s_arr", b.T)), eq(sx("s_off", a.T), sx("s_off", b.T))), Ty: tBoolT}, nil
 	case "allocated":
 		x, err := arg(0)
 		if err != nil {
@@ -682,6 +699,36 @@ func (u *Unit) specCall(e *SExpr, ctx *specCtx) (Val, error) {
 		}
 		u.reg.declFun("str_contains", "Str Str", sBool)
 		return Val{T: sx("str_contains", a.T, b.T), Ty: tBoolT}, nil
+	case "seen", "domain0":
+		if ctx.iter == nil || ctx.iter.isStr {
+			return Val{}, fmt.Errorf("%s() is only available in the invariant of a range-over-map loop", e.Name)
+		}
+		k, err := arg(0)
+		if err != nil {
+			return Val{}, err
+		}
+		if e.Name == "domain0" {
+			return Val{T: sel(ctx.iter.dom0, k.T), Ty: tBoolT}, nil
+		}
+		sn, ok := ctx.cur.heap[ctx.iter.seen]
+		if !ok {
+			sn = u.hget(ctx.cur, ctx.iter.seen, u.heapSort[ctx.iter.seen])
+		}
+		return Val{T: sel(sn, k.T), Ty: tBoolT}, nil
+	case "inv":
+		// inv(x, name): the declared data-structure invariant `name` of x's type, instantiated at x
+		x, err := arg(0)
+		if err != nil {
+			return Val{}, err
+		}
+		if len(e.Args) != 2 || e.Args[1].Op != "ident" {
+			return Val{}, fmt.Errorf("inv(x, name)")
+		}
+		t, err := u.typeInvTerm(x, e.Args[1].Name, ctx)
+		if err != nil {
+			return Val{}, err
+		}
+		return Val{T: t, Ty: tBoolT}, nil
 	case "unchanged":
 		// unchanged(e): value of e now equals its value in the old state
 		now, err := u.specVal(e.Args[0], ctx)
@@ -908,4 +955,43 @@ func (e *Engine) astType(x ast.Expr, pkg *types.Package) (types.Type, error) {
 		return e.astType(t.X, pkg)
 	}
 	return nil, fmt.Errorf("unsupported type syntax %T", x)
+}
+
+// typeInvTerm instantiates invariant `name` ("all" = conjunction) declared for the (pointee) type of x.
+func (u *Unit) typeInvTerm(x Val, name string, ctx *specCtx) (string, error) {
+	t := x.Ty
+	if t == nil {
+		return "", fmt.Errorf("inv: untyped value")
+	}
+	if pt, ok := t.Underlying().(*types.Pointer); ok {
+		t = pt.Elem()
+	}
+	n, ok := t.(*types.Named)
+	if !ok {
+		return "", fmt.Errorf("inv: type %s is not named", t)
+	}
+	ti := u.eng.contracts.Types[n.Obj().Pkg().Path()+"."+n.Obj().Name()]
+	if ti == nil {
+		return "", fmt.Errorf("no invariants declared for type %s", n.Obj().Name())
+	}
+	var parts []string
+	for _, cl := range ti.Invs {
+		if cl.Label != name && name != "all" {
+			continue
+		}
+		env := map[string]Val{"this": x}
+		nc := *ctx
+		nc.env = env
+		nc.pkg = n.Obj().Pkg()
+		nc.local = nil
+		tm, err := u.specBool(cl.Expr, &nc)
+		if err != nil {
+			return "", fmt.Errorf("%s:%d: %v", cl.File, cl.Line, err)
+		}
+		parts = append(parts, tm)
+	}
+	if len(parts) == 0 {
+		return "", fmt.Errorf("invariant %s not declared for %s", name, n.Obj().Name())
+	}
+	return and(parts...), nil
 }
